@@ -110,6 +110,15 @@ def install_graph_monitors():
     return broken
 
 
+def corpus_note(pid):
+    try:
+        n = len(json.load(open(os.path.join(os.path.dirname(os.path.abspath(__file__)), "corpus", f"{pid}.json"))))
+    except (OSError, ValueError):
+        return ""
+    return (f"; run first: {n} cases of this generator selected by (control-flow edge of y0, hit-count) coverage (harness/corpus/{pid}.json, "
+            "tools/mkcovcorpus.py)")
+
+
 def worker_main(argv):
     pid, tier, seed, shard, nshards, n, outfile = argv[0], argv[1], int(argv[2]), int(argv[3]), int(argv[4]), int(argv[5]), argv[6]
     import warnings
@@ -343,7 +352,7 @@ def main_check(pid: str, tier: str) -> int:
             "print_assumptions": {"closed_under_global_context": proof["closed"], "with_axioms": proof["axiom_blocks"],
                                   "axioms": proof["axiom_names"]},
             "trusted_base": prop.trusted_base + COMMON_TB,
-            "evaluations": len(rows), "distinct_nontrivial": len(distinct), "rule": prop.rule,
+            "evaluations": len(rows), "distinct_nontrivial": len(distinct), "rule": prop.rule + corpus_note(pid),
             "traces_validated_against_impl": len(good) - len(bad_idx),
             "model_impl_mismatches": len(bad_idx), "input_distribution": dict(feats.most_common()),
             "known_findings_hit": dict(known_hits), "samples": samples,
